@@ -530,6 +530,8 @@ FULL_SCANS = [
     ("session", "Session.get_tls_records", "self.client_tls_records", "every released record is handled"),
     ("session", "Session.get_tls_records", "self.packet_buffer", "every buffered packet is processed"),
     ("output_builder", "OutputBuilder.build", "record[1].metadata", "every carrying packet contributes its timestamp"),
+    ("output_builder", "OutputBuilder.build", "self.decrypted_records", "every decrypted record is exported (nothing ends the conversation early: not an alert, not a -a record)"),
+    ("quic.quic_output_builder", "QUICOutputbuilder.build", "self.decrypted_traffic", "every buffered frame is considered for export"),
     ("quic.quic_session", "QuicSession.decrypt_packet", "frames", "every frame of a packet is handled"),
     ("quic.quic_session", "QuicSession.handle_quic_packet", "self.packet_buffer_quic", "every extracted QUIC packet is handled"),
     ("main", "run", "all_decrypted_sessions", "every exported packet is written"),
